@@ -481,6 +481,11 @@ class Interp:
         if base in ("llvm.lifetime.start", "llvm.lifetime.end", "llvm.dbg.value", "llvm.dbg.declare",
                     "llvm.assume", "llvm.experimental.noalias.scope.decl", "llvm.dbg.label"):
             return None
+        if base == "llvm.bswap":
+            out = []
+            for x in self.lanes(args[0], n, eb):
+                out.append(T.concat([T.slice_(x, eb - 8 - 8 * i, 8) for i in range(eb // 8)]))
+            return T.concat(out)
         if base == "llvm.ctpop":
             return T.concat([T.ctpop(eb, x) for x in self.lanes(args[0], n, eb)])
         if base in LANEWISE_INTR:
